@@ -307,8 +307,8 @@ func (fr *Frame) binop(st *State, op token.Token, a, b *Term, t types.Type, n as
 	}
 	if a.S == StrSort {
 		if op == token.ADD {
-			DeclFunc("str.cat", StrSort, StrSort, StrSort)
-			return App("str.cat", a, b)
+			DeclFunc("go.str.cat", StrSort, StrSort, StrSort)
+			return App("go.str.cat", a, b)
 		}
 		fr.unsupported(n, "string operator %s", op)
 	}
@@ -567,7 +567,7 @@ func (fr *Frame) evalSliceExpr(st *State, x *ast.SliceExpr) *Term {
 	bt := fr.info.TypeOf(x.X)
 	if b, ok := bt.Underlying().(*types.Basic); ok && b.Info()&types.IsString != 0 {
 		s := fr.eval(st, x.X)
-		DeclFunc("str.sub", StrSort, StrSort, IntSort, IntSort)
+		DeclFunc("go.str.sub", StrSort, StrSort, IntSort, IntSort)
 		lo, hi := IntLit(0), fr.strLen(s)
 		if x.Low != nil {
 			lo = fr.eval(st, x.Low)
@@ -576,7 +576,7 @@ func (fr *Frame) evalSliceExpr(st *State, x *ast.SliceExpr) *Term {
 			hi = fr.eval(st, x.High)
 		}
 		e.oblige(fr, st, "slice", "", fr.site("slice", x), And(Le(IntLit(0), lo), Le(lo, hi), Le(hi, fr.strLen(s))), x, nil, "string slice")
-		return App("str.sub", s, lo, hi)
+		return App("go.str.sub", s, lo, hi)
 	}
 	if _, ok := bt.Underlying().(*types.Slice); !ok {
 		fr.unsupported(x, "slice expression on %s", bt)
@@ -612,8 +612,8 @@ func (e *Engine) subSlice(st *State, s, lo, hi *Term) *Term {
 }
 
 func (fr *Frame) strLen(s *Term) *Term {
-	DeclFunc("str.len", IntSort, StrSort)
-	return App("str.len", s)
+	DeclFunc("go.str.len", IntSort, StrSort)
+	return App("go.str.len", s)
 }
 
 func (fr *Frame) evalComposite(st *State, x *ast.CompositeLit) *Term {
